@@ -3,16 +3,18 @@ CONSTANTS
   Ident = "kitty"
   Style3 = "kitty"
   Bits = 2
-  Fams = {"R", "T", "I"}
+  Fams = {"R", "T"}
   WithBad = FALSE
   WithInv = FALSE
   Dyn = TRUE
+  WithDC = FALSE
 VIEW View
 INVARIANT PlacementsExact
 INVARIANT NoDuplicates
 INVARIANT OutputBracketed
 INVARIANT DeletionsFirst
 INVARIANT ClearedOnStartStopClear
+INVARIANT ClearedByDirectCall
 INVARIANT NoGraphicsIfUnsupported
 INVARIANT TerminalSane
 INVARIANT DistinctZ
